@@ -74,6 +74,29 @@ Theorem C12_written_values_kept :
     forall o, b_occs o bs' = b_occs o bs.
 Proof. exact env_keeps_written_values. Qed.
 
+(** After the D8 repair (options.try prefers an option that finds an occurrence of itself to one satisfied by its
+    environment value) the first clause of the property holds with NO hypothesis on the command line and none on
+    the spec: malformed tokens, folded tokens carrying '=', a spec-level "--", anything. *)
+Theorem C12_group_monotone_on_every_line :
+  forall D D', more_env D D' ->
+  forall opts a r, m_group D opts a false = Some r -> m_group D' opts a false = Some r.
+Proof. exact m_group_mono_all. Qed.
+
+Theorem C12_every_run_survives_on_every_line :
+  forall D D', more_env D D' ->
+  forall g s a ro bs, Acc D g s a ro bs -> Acc D' g s a ro bs.
+Proof. exact acc_mono_all. Qed.
+
+Theorem C12_env_only_enlarges_on_every_line :
+  forall D D', more_env D D' ->
+  forall g start a bs,
+    wf_graph g -> start < nstates g ->
+    fsm_apply D g start a = AOk bs -> exists bs', fsm_apply D' g start a = AOk bs'.
+Proof. exact env_only_enlarges_all. Qed.
+
+Print Assumptions C12_group_monotone_on_every_line.
+Print Assumptions C12_every_run_survives_on_every_line.
+Print Assumptions C12_env_only_enlarges_on_every_line.
 Print Assumptions C12_group_is_greedy.
 Print Assumptions C12_greedy_ignores_environment.
 Print Assumptions C12_group_monotone.
@@ -107,3 +130,15 @@ Example C12_more_env_example :
   let mk (env : bool) := mkOI (fun n => if str_eqb n (lit "-e") then Some 0 else None) (fun _ => false) (fun _ => env) in
   more_env (mk false) (mk true).
 Proof. repeat split; auto. Qed.
+
+(** D8, repaired, on the model: group of -o (valued) and -a (flag), line "-aa=v -o=7". The scan for -o stops at
+    "-aa=v"; before the repair an -o backed by the environment was then counted as matched and excluded, and the
+    "-o=7" that -a uncovers was never taken: the line was accepted without O and rejected with it. *)
+Example C12_d8_repaired :
+  let mk (env : bool) := mkOI (fun n => if str_eqb n (lit "-o") then Some 0 else if str_eqb n (lit "-a") then Some 1 else None)
+                              (fun i => Nat.eqb i 1) (fun i => env && Nat.eqb i 0) in
+  let a := [lit "-aa=v"; lit "-o=7"] in
+  (m_group (mk false) [0; 1] a false, m_group (mk true) [0; 1] a false)
+  = (Some ([], false, [(KO 1, lit "true"); (KO 0, lit "7"); (KO 1, lit "v")]),
+     Some ([], false, [(KO 1, lit "true"); (KO 0, lit "7"); (KO 1, lit "v")])).
+Proof. vm_compute. reflexivity. Qed.
